@@ -118,7 +118,14 @@ def handle (D : DSt) (line : String) : Except String (DSt × String) := do
     | .error e => return ({ D with env := env, st := emptyF }, showErr e)
   | "add" =>
     let (d, n) ← dn
-    run (.addTable d n (← tableArg) (← jStrPairs (← j.getObjVal? "cols")))
+    let cm ← match j.getObjVal? "cols_str" with
+      | .ok (Json.str text) => pure (ColMapping.str text)
+      | _ =>
+        match j.getObjVal? "cols" with
+        | .ok Json.null => pure ColMapping.none_
+        | .ok c => pure (ColMapping.dict (← jStrPairs c))
+        | .error _ => pure ColMapping.none_
+    run (.addTable d n (← tableArg) cm)
   | "names" =>
     let (d, n) ← dn
     run (.columnNames d n (← tableArg) (← (← j.getObjVal? "ov").getBool?))
